@@ -167,7 +167,7 @@ func (c *Ctx) NamedType(pkgSuffix, name string) *types.Named {
 	}
 	o := p.Scope().Lookup(name)
 	if o == nil {
-		return nil
+		return c.renamedType(pkgSuffix, name, p)
 	}
 	tn, ok := o.(*types.TypeName)
 	if !ok {
@@ -192,7 +192,7 @@ func (c *Ctx) Field(pkgSuffix, typeName, field string) *types.Var {
 			return st.Field(i)
 		}
 	}
-	return nil
+	return c.renamedField(pkgSuffix, typeName, field, st)
 }
 
 // Method returns the SSA function of a method (pointer or value receiver) of a named type.
@@ -214,7 +214,7 @@ func (c *Ctx) Method(pkgSuffix, typeName, method string) *ssa.Function {
 			}
 		}
 	}
-	return nil
+	return c.renamedMethod(pkgSuffix, typeName, method, n)
 }
 
 // Func returns a package-level function.
@@ -227,7 +227,10 @@ func (c *Ctx) Func(pkgSuffix, name string) *ssa.Function {
 	if sp == nil {
 		return nil
 	}
-	return sp.Func(name)
+	if f := sp.Func(name); f != nil {
+		return f
+	}
+	return c.renamedFunc(pkgSuffix, name, sp)
 }
 
 // Pos renders a position relative to the repository.
